@@ -39,7 +39,7 @@ def parseMutReq (s : String) : Option MutReq :=
   let s := (s.drop 1).toString
   let (s, args) := if s.endsWith "!" then ((s.dropEnd 1).toString, true) else (s, false)
   match s.splitOn ":" with
-  | [k, l] => (parseKind k).map (fun kind => { kind := kind, states := parseList l, hasArgs := args })
+  | [k, l] => (parseKind k).map (fun kind => { kind := kind, states := parseList l, hasArgs := args, hasX := args })
   | _ => none
 
 structure Rule where
@@ -67,6 +67,40 @@ def showB (b : Bool) : String := if b then "1" else "0"
 def showMut (m : Mut) : String :=
   s!"{showKind m.kind}:{showList m.raw}:{showB m.isAuto}{showB m.isCheck}{showB m.hasArgs}:{m.qtick}"
 
+def showCtx : Option Nat → String
+  | none => "-" | some c => toString c
+
+def showChan : Option Nat → String
+  | none => "c" | some c => toString c
+
+def showSub : SubReq → String
+  | .when neg st ctx => s!"{if neg then "whennot" else "when"}:{showList st}:{showCtx ctx}"
+  | .time st ts ctx => s!"whentime:{showList st}:{showList ts}:{showCtx ctx}"
+  | .ticks st n ctx => s!"whenticks:{st}:{n}:{showCtx ctx}"
+  | .next st ctx => s!"whennext:{st}:{showCtx ctx}"
+  | .query st mt ctx => s!"whenquery:{st}:{mt}:{showCtx ctx}"
+  | .args st nx ctx => s!"whenargs:{st}:{showB nx}:{showCtx ctx}"
+  | .queue t => s!"whenqueue:{t}"
+  | .queueEnds => "whenqueueends"
+  | .stateCtx st => s!"statectx:{st}"
+
+def parseCtx (s : String) : Option Nat := if s == "-" then none else s.toNat?
+
+/-- `when:1,2:-`, `whentime:1,2:3,4:7`, `whenqueue:5`, `statectx:2`, … -/
+def parseSub (s : String) : Option SubReq :=
+  match s.splitOn ":" with
+  | ["when", st, c] => some (.when false (parseList st) (parseCtx c))
+  | ["whennot", st, c] => some (.when true (parseList st) (parseCtx c))
+  | ["whentime", st, ts, c] => some (.time (parseList st) (parseList ts) (parseCtx c))
+  | ["whenticks", st, n, c] => do pure (.ticks (← st.toNat?) (← n.toNat?) (parseCtx c))
+  | ["whennext", st, c] => do pure (.next (← st.toNat?) (parseCtx c))
+  | ["whenquery", st, mt, c] => do pure (.query (← st.toNat?) (← mt.toNat?) (parseCtx c))
+  | ["whenargs", st, nx, c] => do pure (.args (← st.toNat?) (nx == "1") (parseCtx c))
+  | ["whenqueue", t] => t.toNat?.map .queue
+  | ["whenqueueends"] => some .queueEnds
+  | ["statectx", st] => st.toNat?.map .stateCtx
+  | _ => none
+
 def showEv : Ev → String
   | .h b n a => s!"H({b}|{showHName n}|{showList a})"
   | .tInit m bf tb ta tg acc => s!"TI({showMut m}|{showList bf}|{showList tb}|{showList ta}|{showList tg}|{showB acc})"
@@ -76,6 +110,7 @@ def showEv : Ev → String
   | .mq m => s!"MQ({showMut m})"
   | .qEnd => "QE"
   | .nested r q res => s!"N({showKind r.kind}:{showList r.states}:{showB r.hasArgs}|{q}|{showRes res})"
+  | .subbed r out => s!"W({showSub r}|{showChan out})"
   | .errInternal => "EI"
 
 structure CodecState where
@@ -94,7 +129,10 @@ def showState (m : Mach) (res : String) : String :=
   let evs := " ".intercalate ((m.log.filter (· != .errInternal)).map showEv)
   let ei := (m.log.filter (· == .errInternal)).length
   let crash := if m.crashed then " CRASH" else ""
-  s!"res={res} act={showList m.active} clk={showList m.clock} qt={m.queueTick} q={m.queue.length} ei={ei}{crash} log={evs}"
+  -- a disposed machine answers its getters with neutral values
+  let act := if m.disposed then [] else m.active
+  let clk := if m.disposed then [] else m.clock
+  s!"res={res} act={showList act} clk={showList clk} qt={m.queueTick} q={m.queue.length} ei={ei}{crash} cl={showList (isort (fun a b => decide (a < b)) (uniq m.subs.closed))} xc={showList (isort (fun a b => decide (a < b)) (uniq m.subs.canceled))} log={evs}"
 
 def parseStateDef (s : String) : Option StateDef :=
   match s.splitOn ":" with
@@ -217,7 +255,9 @@ def stepLine (d : DState) (line : String) : DState × String :=
     match k.toNat? with
     | some k => ({ d with m := { d.m with nbind := k, hasHandlers := d.m.hasHandlers || k > 0 } }, "ok")
     | none => (d, "bad-op")
-  | "rule" :: b :: hn :: nth :: act :: muts =>
+  | "rule" :: b :: hn :: nth :: act :: extras =>
+    let muts := extras.filter (fun t => !t.startsWith "~")
+    let subs := (extras.filter (fun t => t.startsWith "~")).filterMap (fun t => parseSub (t.drop 1).toString)
     match b.toNat?, parseHName hn, muts.mapM parseMutReq with
     | some b, some hn, some ms =>
       let a? : Option Action := match act with
@@ -228,7 +268,7 @@ def stepLine (d : DState) (line : String) : DState × String :=
       | none => (d, "bad-op")
       | some a =>
         let nth? := if nth == "*" then none else nth.toNat?
-        ({ d with rules := d.rules ++ [{ bind := b, name := hn, nth := nth?, beh := { muts := ms, act := a } }] }, "ok")
+        ({ d with rules := d.rules ++ [{ bind := b, name := hn, nth := nth?, beh := { muts := ms, subs := subs, act := a } }] }, "ok")
     | _, _, _ => (d, "bad-op")
   | ["limit", k] =>
     match k.toNat? with
@@ -236,15 +276,32 @@ def stepLine (d : DState) (line : String) : DState × String :=
     | none => (d, "bad-op")
   | ["backoff", k] => ({ d with m := { d.m with backoff := k == "1" } }, "ok")
   | ["fuel", k] => ({ d with fuel := k.toNat?.getD 200 }, "ok")
+  | ["sub", r] =>
+    match parseSub r with
+    | none => (d, "bad-op")
+    | some sr =>
+      let m0 := { d.m with log := [] }
+      let p := doSub m0 sr
+      ({ d with m := p.1 }, s!"ch={showChan p.2} cl={showList (isort (fun a b => decide (a < b)) (uniq p.1.subs.closed))} xc={showList (isort (fun a b => decide (a < b)) (uniq p.1.subs.canceled))}")
+  | ["ctx", "new"] =>
+    let p := d.m.subs.newCtx
+    ({ d with m := { d.m with subs := p.1 } }, s!"ctx={p.2}")
+  | ["ctx", "cancel", c] =>
+    match c.toNat? with
+    | some c => ({ d with m := { d.m with subs := d.m.subs.cancelCtx c } }, "ok")
+    | none => (d, "bad-op")
+  | ["dispose"] =>
+    let m1 := disposeMach d.m
+    ({ d with m := m1 }, s!"disposed cl={showList (isort (fun a b => decide (a < b)) (uniq m1.subs.closed))} xc={showList (isort (fun a b => decide (a < b)) (uniq m1.subs.canceled))}")
   | [op, l] =>
     let st := parseList l
     match op with
     | "add" => runOp (fun o f m => mutate o f m { kind := .add, states := st })
     | "remove" => runOp (fun o f m => mutate o f m { kind := .remove, states := st })
     | "set" => runOp (fun o f m => mutate o f m { kind := .set, states := st })
-    | "add!" => runOp (fun o f m => mutate o f m { kind := .add, states := st, hasArgs := true })
-    | "remove!" => runOp (fun o f m => mutate o f m { kind := .remove, states := st, hasArgs := true })
-    | "set!" => runOp (fun o f m => mutate o f m { kind := .set, states := st, hasArgs := true })
+    | "add!" => runOp (fun o f m => mutate o f m { kind := .add, states := st, hasArgs := true, hasX := true })
+    | "remove!" => runOp (fun o f m => mutate o f m { kind := .remove, states := st, hasArgs := true, hasX := true })
+    | "set!" => runOp (fun o f m => mutate o f m { kind := .set, states := st, hasArgs := true, hasX := true })
     | "toggle" => runOp (fun o f m => toggle o f m st)
     | "canadd" => runOp (fun o f m => check o f m .add st)
     | "canremove" => runOp (fun o f m => check o f m .remove st)
